@@ -79,7 +79,7 @@ func c06Run(c *core.Ctx) {
 }
 
 func c06Replay(c *core.Ctx, payload json.RawMessage) {
-	if c06ZonesReplay(c, payload) || c06ListsReplay(c, payload) {
+	if c06ZonesReplay(c, payload) || c06ListsReplay(c, payload) || c06PaddingReplay(c, payload) || c06UnixtimeReplay(c, payload) || c06BoundsReplay(c, payload) {
 		return
 	}
 	var p c06Payload
@@ -197,6 +197,19 @@ func c06Direct(c *core.Ctx, al []rv.V, onlyA, onlyB int) {
 				case want.Err:
 					if err == nil {
 						violateC06(c, "direct", name, al, idx, rv.FromPrimary(got).Key(), "integer-division-by-zero error")
+					}
+				case want.Wrapped:
+					// the exact result lies outside the 64-bit integers: judged by the overflow rule (c06_bounds.go)
+					var g rv.V
+					if err == nil {
+						g = rv.FromPrimary(got)
+					}
+					if verdict, sig, msg := c06Overflow(op, a, b, g, err, want.V); verdict != c06OverflowOK {
+						if verdict == c06OverflowWrapped {
+							c.Violate(sig, msg, c06Payload{Seam: "direct", Idx: idx, Keys: []string{a.Key(), b.Key()}, Expr: name})
+						} else {
+							violateC06(c, "direct", name, al, idx, msg, "the exact result does not fit a 64-bit integer: an error or the float result")
+						}
 					}
 				case err != nil:
 					violateC06(c, "direct", name, al, idx, "error "+err.Error(), want.V.Key())
@@ -330,9 +343,6 @@ var c06PairExprs = []c06Expr{
 	{"@a > @b", func(a, b, _ rv.V) rv.V { return tv(rv.Op(a, b, ">")) }},
 	{"@a >= @b", func(a, b, _ rv.V) rv.V { return tv(rv.Op(a, b, ">=")) }},
 	{"@a == @b", func(a, b, _ rv.V) rv.V { return tv(rv.Op(a, b, "==")) }},
-	{"@a + @b", func(a, b, _ rv.V) rv.V { return rv.Arith(a, b, '+').V }},
-	{"@a - @b", func(a, b, _ rv.V) rv.V { return rv.Arith(a, b, '-').V }},
-	{"@a * @b", func(a, b, _ rv.V) rv.V { return rv.Arith(a, b, '*').V }},
 	{"@a AND @b", func(a, b, _ rv.V) rv.V { return tv(rv.And(a.Tern3(), b.Tern3())) }},
 	{"@a OR @b", func(a, b, _ rv.V) rv.V { return tv(rv.Or(a.Tern3(), b.Tern3())) }},
 	{"NOT @a", func(a, b, _ rv.V) rv.V { return tv(rv.Not(a.Tern3())) }},
@@ -351,7 +361,12 @@ func tbi(b bool) int {
 	return rv.F
 }
 
+// arithmetic is evaluated one expression per statement: an operation may end in an error (integer division by zero,
+// a result outside the 64-bit integers), which would take the other expressions of a common SELECT with it
 var c06DivExprs = []c06Expr{
+	{"@a + @b", nil},
+	{"@a - @b", nil},
+	{"@a * @b", nil},
 	{"@a / @b", nil},
 	{"@a % @b", nil},
 }
@@ -412,7 +427,10 @@ func c06SQL(c *core.Ctx, al []rv.V, only []int) {
 	ctx := query.ContextForStoringResults(env.Ctx)
 	pairStmt := selectOf(c06PairExprs)
 	tripleStmt := selectOf(c06TripleExprs)
-	divStmts := [][]parser.Statement{mustParse("SELECT @a / @b"), mustParse("SELECT @a % @b")}
+	var divStmts [][]parser.Statement
+	for _, e := range c06DivExprs {
+		divStmts = append(divStmts, mustParse("SELECT "+e.sql))
+	}
 	env.SetVar("a", value.NewNull())
 	env.SetVar("b", value.NewNull())
 	env.SetVar("c", value.NewNull())
@@ -460,7 +478,7 @@ func c06SQL(c *core.Ctx, al []rv.V, only []int) {
 					}
 				}
 				c.EvalN(int64(len(c06PairExprs)), b2i(nt)*int64(len(c06PairExprs)))
-				for k, op := range []byte{'/', '%'} {
+				for k, op := range c06Arith {
 					want := rv.Arith(a, b, op)
 					row, err := run(divStmts[k])
 					switch {
@@ -470,13 +488,25 @@ func c06SQL(c *core.Ctx, al []rv.V, only []int) {
 						} else if drv.IsFatal(err) {
 							violateC06(c, "sql", c06DivExprs[k].sql, al, idx, err.Error(), "integer-division-by-zero error")
 						}
+					case want.Wrapped:
+						var g rv.V
+						if err == nil {
+							g = row[0]
+						}
+						if verdict, sig, msg := c06Overflow(op, a, b, g, err, want.V); verdict != c06OverflowOK {
+							if verdict == c06OverflowWrapped {
+								c.Violate(sig, msg, c06Payload{Seam: "sql", Idx: idx, Keys: []string{a.Key(), b.Key()}, Expr: c06DivExprs[k].sql})
+							} else {
+								violateC06(c, "sql", c06DivExprs[k].sql, al, idx, msg, "the exact result does not fit a 64-bit integer: an error or the float result")
+							}
+						}
 					case err != nil:
 						violateC06(c, "sql", c06DivExprs[k].sql, al, idx, "error "+err.Error(), want.V.Key())
 					case !rv.SameValue(row[0], want.V):
 						violateC06(c, "sql", c06DivExprs[k].sql, al, idx, row[0].Key(), want.V.Key())
 					}
 				}
-				c.EvalN(2, b2i(nt)*2)
+				c.EvalN(int64(len(c06Arith)), b2i(nt)*int64(len(c06Arith)))
 			}
 			for k := 0; k < n; k++ {
 				if only != nil && (len(only) < 3 || k != only[2]) {
